@@ -50,3 +50,20 @@ Definition chain_set (w : world) (r : N) (path : list pel) (x : scalar) : world 
   | Some e => step w' (OSet e x)
   | None => (w, RBool (set_on_unbound x))
   end.
+
+(* ---- other API calls that are two steps of the model in one expression ---- *)
+
+(* r.add<JsonArray>() / r.add<JsonObject>() / createNestedArray() / createNestedObject():  add<JsonVariant>().to<T>() *)
+Definition then_to (w1 : world) (res : result) (arr : bool) : world * result :=
+  match ref_of res with
+  | Some e => (fst (step w1 (if arr then OToArr e else OToObj e)), RRef (Some e))
+  | None => (w1, RRef None)
+  end.
+Definition add_typed (w : world) (r : N) (arr : bool) : world * result :=
+  let '(w1, res) := step w (OAddNew r) in then_to w1 res arr.
+(* r[k].to<JsonArray>() / createNestedArray(k) / createNestedObject(k) *)
+Definition nest_typed (w : world) (r : N) (k : bytes) (arr : bool) : world * result :=
+  let '(w1, res) := step w (OMakeMember r k) in then_to w1 res arr.
+(* d = std::move(s): d receives s's content, s is left empty *)
+Definition doc_move (w : world) (d s : nat) : world * result :=
+  step (fst (step w (ODocCopy d s))) (ODocClear s).
